@@ -48,7 +48,7 @@ STACKS = [[0, 90, 90, 0], [0, 90, -45, 45], [45, -45, 0, 90, 30], [0], [30, -30,
 
 PANEL_OPS = ['k0', 'k0', 'kG0', 'kM', 'kA', 'cA', 'kT', 'fint', 'fext', 'lb', 'lb_dense', 'freq', 'freq_dense', 'static',
              'static_nl', 'uvw', 'strain', 'stress', 'plot', 'save_load', 'get_size', 'set_cores', 'k0_c', 'kG0_c',
-             'mod_lb', 'mod_freq', 'mod_static', 'lb_c']
+             'mod_lb', 'mod_freq', 'mod_static', 'lb_c', 'k0_F', 'kT_F', 'fint_F', 'lb_cF']
 ASM_OPS = ['k0', 'k0', 'kG0', 'kM', 'kT', 'fint', 'fext', 'k0_conn', 'uvw', 'strain', 'stress', 'set_cores', 'get_size',
            'mod_lb', 'mod_freq', 'mod_static', 'panel_k0', 'plot', 'an_static', 'an_static_nl', 'panel_kM', 'panel_fext']
 BAY_OPS = ['k0', 'k0', 'kG0', 'kM', 'kA', 'cA', 'fext', 'uvw_skin', 'uvw_stiffener', 'get_size', 'set_cores',
@@ -57,7 +57,7 @@ SHELL_OPS = ['k0', 'k0', 'fext', 'kT', 'fint', 'lb', 'static', 'static_nl', 'uvw
              'set_cores', 'set_ni_cores', 'save_load', 'plot', 'eigen']
 
 
-SOLVER_OPS = ('lb', 'lb_dense', 'lb_c', 'freq', 'freq_dense', 'static', 'static_nl', 'mod_lb', 'mod_freq', 'mod_static', 'eigen',
+SOLVER_OPS = ('lb', 'lb_dense', 'lb_c', 'lb_cF', 'freq', 'freq_dense', 'static', 'static_nl', 'mod_lb', 'mod_freq', 'mod_static', 'eigen',
               'an_static', 'an_static_nl')
 
 
@@ -498,6 +498,18 @@ class Env(object):
         self.track(ys, 'ys')
         return xs, ys, {}
 
+    def ftable(self, d):
+        """laminate table per integration point, (nx, ny, 6, 6), a smooth perturbation of one ABD matrix"""
+        np = self.np
+        import compmech.composite.laminate as laminate
+        lam = laminate.read_stack(list(d['stack']), plyt=d['plyt'], laminaprop=LAMPROP, offset=d['offset'])
+        F = np.array(lam.ABD, dtype=float)
+        nx, ny = d['nx'], d['ny']
+        fac = 1.0 + 0.1 * np.add.outer(np.linspace(0, 1, nx), np.linspace(0, 1, ny))
+        F4 = np.ascontiguousarray(fac[:, :, None, None] * F[None, None, :, :])
+        self.track(F4, 'Fnxny table')
+        return F4
+
     def track(self, arr, what):
         self.tracked.append((arr, sha_bytes(arr.tobytes()), what))
 
@@ -553,6 +565,19 @@ def run_panel_op(p, op, env, d):
         return p.calc_k0(silent=True)
     if name == 'k0_c':
         return p.calc_k0(c=env.c(op['ci'], size), silent=True, NLgeom=op['nl'])
+    if name in ('k0_F', 'kT_F', 'fint_F', 'lb_cF'):
+        # caller-supplied laminate table per integration point (nx, ny, 6, 6): must not be modified, and using it
+        # must not change what later calls without a table return
+        F4 = env.ftable(d)
+        c = env.c(op['ci'], size)
+        if name == 'k0_F':
+            return p.calc_k0(Fnxny=F4, nx=d['nx'], ny=d['ny'], silent=True)
+        if name == 'kT_F':
+            return p.calc_kT(c=c, Fnxny=F4, nx=d['nx'], ny=d['ny'], silent=True)
+        if name == 'fint_F':
+            return p.calc_fint(c, Fnxny=F4, nx=d['nx'], ny=d['ny'], silent=True)
+        p.lb(silent=True, c=c, Fnxny=F4, nx=d['nx'], ny=d['ny'])
+        return (p.eigvals, p.eigvecs)
     if name == 'kG0':
         return p.calc_kG0(silent=True)
     if name == 'kG0_c':
@@ -809,7 +834,8 @@ def run_shell_op(cc, op, env, d):
 def op_key(kind, op):
     name = op['op']
     parts = [name]
-    if name in ('k0_c', 'kG0_c', 'kT', 'fint', 'lb_c', 'uvw', 'strain', 'stress', 'plot', 'uvw_skin', 'uvw_stiffener', 'plot_skin'):
+    if name in ('k0_c', 'kG0_c', 'kT', 'fint', 'lb_c', 'uvw', 'strain', 'stress', 'plot', 'uvw_skin', 'uvw_stiffener', 'plot_skin',
+                'kT_F', 'fint_F', 'lb_cF'):
         parts.append('c%d' % op['ci'])
     if name in ('uvw', 'strain', 'stress', 'uvw_skin'):
         parts.append('p%d' % op['pi'])
